@@ -243,7 +243,7 @@ PROPS = {
                 "declaration / after the last one (top), every other token start with 1/12 (scope): JUDGECOMP (variables = exactly the "
                 "locals of the enclosing procedure by the Scope specification, functions = all declared + predefined procedures, types = "
                 "declared types + int, top level = declaration starters only; scope: nothing local to another procedure), COMP (vs model). " + TEXT_RULE,
-        "unproved_parts": ["completion_scope vs the specification is judged on every run; the list-shape lemmas (C16.*) are theorems",
+        "unproved_parts": ["C16.statement_scope_exact IS a theorem (well-typed program: statement proposals for the table entry of a procedure = starters + exactly its parameters and locals + exactly the predefined and declared procedures; type proposals = int + declared types); which entry / which branch of the position analysis the handler takes at a given cursor is judged on every run (JUDGECOMP vs the Scope specification)",
                            "positions directly after '(' / ':=' are only covered by the scope class"],
     },
     "C17": {
